@@ -846,7 +846,7 @@ func c14Explore(t *testing.T, c *ev.Collector, k c14Case) {
 func TestC14(t *testing.T) {
 	c := ev.New("C14")
 	defer func() { _ = c.Finish() }()
-	c.SetRule("stateless model checking under the controlled scheduler: for every admissible (client program over {Send,CloseRequest,Receive,CloseResponse,cancel}, handler program {receive i, send j, drain?, nil|error}, protocol, request window) every schedule within the delay bound of the non-preemptive run-to-block default scheduler (and, for eager-window scenarios with short programs, of the round-robin default scheduler) is executed on the real client/handler; yield points = every statement of duplex_http_call.go, every visible operation elsewhere in the library, every membrane operation; a scenario is distinct by (protocol, window, client word, split, handler program); states = DFS-tree nodes, transitions = scheduler steps")
+	c.SetRule("stateless model checking under the controlled scheduler: for every admissible (client program over {Send,CloseRequest,Receive,CloseResponse,cancel}, handler program {receive i, send j, drain?, nil|error}, protocol, request window) every schedule within the delay bound of the non-preemptive run-to-block default scheduler (and, for eager-window scenarios with short programs, of the round-robin default scheduler) is executed on the real client/handler; yield points = every statement of duplex_http_call.go, every visible operation elsewhere in the library, every membrane operation; handler writes pass through a 4 KiB buffered writer as with net/http (handler messages of 2 bytes, and of 5002 incompressible bytes for receiving programs of length <= 4); a scenario is distinct by (protocol, window, client word, split, handler program, variant); states = DFS-tree nodes, transitions = scheduler steps")
 	c.Assume("memhttp models net/http's RoundTripper/Handler contract (DESIGN 2.3); interleavings inside the real net/http stack are not explored",
 		"statement-granular sequentially consistent interleavings only",
 		"inadmissible pairs (application-level deadlock in the two-process FIFO reference model) are filtered, not judged")
